@@ -8,6 +8,7 @@ view + refinement of the peeking scanner), `Proofs/HTTPHeap` (slices and aliasin
 -/
 import Vegeta.Proofs.HTTPRender
 import Vegeta.Proofs.JSONTargets
+import Vegeta.Proofs.JSONRoundTrip
 import Vegeta.Proofs.TargeterLaws
 import Vegeta.Extracted.Facts
 namespace Vegeta.Props.C14
@@ -440,6 +441,81 @@ theorem merge_semantics_json (cfg : JSONTargets.Cfg) (line : Bytes) (t : JSONTar
         | none, some vs => some vs
         | some ds, some vs => some (ds ++ vs) :=
   Vegeta.Proofs.JSONTargets.finish_spec cfg line t h hd hr
+
+open Vegeta.Proofs.JSONRoundTrip in
+/-- **"targets written with the JSON target encoder decode back to equal targets"**: for every
+target whose strings are Go-valid UTF-8 (method, URL, header names and values — anything else
+the encoder itself replaces by U+FFFD) and any body bytes, any number of headers in any map
+order, nil or empty value slices included: the line the encoder writes, trimmed as the targeter
+trims it, decodes to the same method, URL, body and header values (a nil value slice reads back
+as no values). `decodeImage` is the model of the decoder on the encoder's image; it is compared
+with the real decoder on every line the real encoder writes in the correspondence run. -/
+theorem json_roundtrip (t : JSONTargets.ETarget) (h : Clean t) :
+    JSONTargets.decodeImage (Vegeta.Model.Histogram.trimSpace (JSONTargets.encodeTarget t)) = some (recOf t) :=
+  decode_encode t h
+
+open Vegeta.Proofs.JSONRoundTrip Vegeta.Proofs.JSONTargets in
+theorem aux_fileOf_encoded (ts : List JSONTargets.ETarget) :
+    fileOf (ts.map lineOf) [] = ts.flatMap JSONTargets.encodeTarget := by
+  induction ts with
+  | nil => rfl
+  | cons t r ih => simp [fileOf, ih, encodeTarget_line]
+
+open Vegeta.Proofs.JSONRoundTrip Vegeta.Proofs.JSONTargets in
+theorem aux_nonBlank_encoded (ts : List JSONTargets.ETarget) : nonBlank (ts.map lineOf) = ts.map lineOf := by
+  induction ts with
+  | nil => rfl
+  | cons t r ih =>
+    have hne : lineOf t ≠ [] := by simp [lineOf]
+    simp only [List.map_cons, nonBlank, trim_line, hne, ↓reduceIte, ih]
+
+open Vegeta.Proofs.JSONRoundTrip Vegeta.Proofs.JSONTargets in
+/-- … and through the targeter: a file written by the encoder for the targets `ts` (one call of
+the encoder per target) makes the JSON targeter — with `decodeImage` as its decoder — return, call
+by call and in order, the merge (`merge_semantics_json`) of each target's own record `recOf t`,
+then `ErrNoTargets`. -/
+theorem json_encoded_file (cfg : JSONTargets.Cfg) (hdec : cfg.dec = JSONTargets.decodeImage)
+    (ts : List JSONTargets.ETarget) (hts : ∀ t ∈ ts, Clean t) (k : Nat) :
+    (JSONTargets.calls cfg (ts.length + k) (ts.flatMap JSONTargets.encodeTarget)).1 =
+      ts.map (fun t => JSONTargets.finish cfg (lineOf t)) ++ List.replicate k (.error JSONTargets.eNoTargets) ∧
+    ∀ t ∈ ts, cfg.dec (lineOf t) = some (recOf t) := by
+  constructor
+  · have hls : ∀ l ∈ ts.map lineOf, 10 ∉ l := by
+      intro l hl
+      simp only [List.mem_map] at hl
+      obtain ⟨t, ht, rfl⟩ := hl
+      exact lineOf_no_nl t (hts t ht)
+    have := json_stream cfg (ts.map lineOf) [] hls (by simp) k
+    rw [aux_nonBlank_encoded, aux_fileOf_encoded] at this
+    simp only [List.length_map, List.map_map] at this
+    exact this
+  · intro t ht
+    have := decode_encode t (hts t ht)
+    rw [encodeTarget_line, trim_line] at this
+    rw [hdec]; exact this
+
+/-- `GET http://a/<é` with body `hi`, header `X: ["1", "\"\n"]` and a nil value slice under `Y` -/
+def rtTarget : JSONTargets.ETarget :=
+  { method := [71, 69, 84], url := [104, 116, 116, 112, 58, 47, 47, 97, 47, 60, 195, 169], body := [104, 105],
+    header := [([88], some [[49], [34, 10]]), ([89], none)] }
+
+open Vegeta.Proofs.JSONRoundTrip in
+/-- non-vacuity of `Clean` -/
+example : Clean rtTarget := by
+  refine ⟨by decide, by decide, by decide, ?_⟩
+  intro kv hkv
+  simp only [rtTarget, List.mem_cons, List.mem_nil_iff, or_false] at hkv
+  rcases hkv with rfl | rfl
+  · exact ⟨by decide, by intro x hx; simp at hx; rcases hx with rfl | rfl <;> decide⟩
+  · exact ⟨by decide, by intro x hx; simp at hx⟩
+
+/-- the line the model writes for it:
+`{"method":"GET","url":"http://a/\u003cé","body":"aGk=","header":{"X":["1","\"\n"],"Y":null}}` -/
+example : JSONTargets.encodeTarget rtTarget =
+    [123, 34, 109, 101, 116, 104, 111, 100, 34, 58, 34, 71, 69, 84, 34, 44, 34, 117, 114, 108, 34, 58, 34, 104, 116, 116, 112,
+     58, 47, 47, 97, 47, 92, 117, 48, 48, 51, 99, 195, 169, 34, 44, 34, 98, 111, 100, 121, 34, 58, 34, 97, 71, 107, 61, 34,
+     44, 34, 104, 101, 97, 100, 101, 114, 34, 58, 123, 34, 88, 34, 58, 91, 34, 49, 34, 44, 34, 92, 34, 92, 110, 34, 93, 44,
+     34, 89, 34, 58, 110, 117, 108, 108, 125, 125, 10] := by decide
 
 /-- source facts the models rest on: the method regexp is `^[A-Z]+\s`, and the default merge
 assigns the default slices themselves (`tgt.Header[k] = vs`) -/
